@@ -78,11 +78,13 @@ class GenericContextProvider(RoleProvider):
 
         operation_target_handles = []
         modified_state_handles: dict[str, list[str]] = defaultdict(list)
-        modified_entities = []
+        modified_entities = {}  # one working copy per context descriptor, shared by all proposals for it
         with self._mdib.context_state_transaction() as mgr:
             for proposed_st in proposed_context_states:
-                entity = self._mdib.entities.by_handle(proposed_st.DescriptorHandle)
-                modified_entities.append(entity)
+                entity = modified_entities.get(proposed_st.DescriptorHandle)
+                if entity is None:
+                    entity = self._mdib.entities.by_handle(proposed_st.DescriptorHandle)
+                    modified_entities[proposed_st.DescriptorHandle] = entity
                 old_state_container = None
                 if proposed_st.DescriptorHandle != proposed_st.Handle:
                     # this is an update for an existing state or a new one
@@ -149,7 +151,7 @@ class GenericContextProvider(RoleProvider):
                 operation_target_handles.append(proposed_st.Handle)
 
             # write changes back to mdib
-            for entity in modified_entities:
+            for entity in modified_entities.values():
                 handles = modified_state_handles[entity.handle]
                 mgr.write_entity(entity, handles)
 
